@@ -43,6 +43,7 @@ ConfigOK(e) ==
   LET c == e.config i == e.internal IN
   /\ c.n = i.n /\ c.m = i.m /\ c.nnzP = i.nnzP /\ c.nnzA = i.nnzA /\ c.ncones = i.ncones
   /\ c.max_iter = i.max_iter
+  /\ c.settings = i.settings        \* every figure of the settings block, in order, as documented
   /\ (i.has_presolver <=> Has(c, "removed"))
   /\ Has(c, "removed") => c.removed = i.removed
   \* cone counts by type: every internal type is listed with its count, and nothing else
